@@ -123,26 +123,37 @@ def convertDenomToHash (cfg : Cfg) (c : Coin) : Except Err Coin :=
 def lookupFee (cfg : Cfg) (typ : String) : Option MsgFee :=
   (cfg.sched.find? (·.1 = typ)).map (·.2)
 
+/-- The schedule half of one loop iteration of `CalculateAdditionalFeesToBePaid` (keeper.go:204-215). -/
+def schedPart (cfg : Cfg) (d : Dist) (m : RMsg) : Except Err Dist :=
+  match lookupFee cfg m.typ with
+  | some f => d.increase f.fee f.bips f.recipient
+  | none => .ok d
+
+/-- The `MsgAssessCustomMsgFeeRequest` half (keeper.go:217-235): convert, `GetBips`, `Increase`. -/
+def assessPart (cfg : Cfg) (d : Dist) (a : Assess) : Except Err Dist :=
+  match convertDenomToHash cfg a.amount with
+  | .error e => .error e
+  | .ok c =>
+    match a.bips with
+    | none => d.increase c 10000 a.recipient
+    | some b => if b > 10000 then .error .bips else d.increase c b a.recipient
+
 /-- One iteration of the loop of `CalculateAdditionalFeesToBePaid` (keeper.go:204-236). -/
-def calcOne (cfg : Cfg) (d : Dist) (m : RMsg) : Except Err Dist := do
-  let d1 ← match lookupFee cfg m.typ with
-    | some f => d.increase f.fee f.bips f.recipient
-    | none => pure d
-  match m.assess with
-  | none => pure d1
-  | some a =>
-    let c ← convertDenomToHash cfg a.amount
-    let points ← match a.bips with
-      | none => pure 10000
-      | some b => if b > 10000 then throw Err.bips else pure b
-    d1.increase c points a.recipient
+def calcOne (cfg : Cfg) (d : Dist) (m : RMsg) : Except Err Dist :=
+  match schedPart cfg d m with
+  | .error e => .error e
+  | .ok d1 =>
+    match m.assess with
+    | none => .ok d1
+    | some a => assessPart cfg d1 a
 
 /-- `Keeper.CalculateAdditionalFeesToBePaid` (keeper.go:198). -/
 def calculateAdditionalFeesToBePaid (cfg : Cfg) : Dist → List RMsg → Except Err Dist
   | d, [] => .ok d
-  | d, m :: ms => do
-    let d1 ← calcOne cfg d m
-    calculateAdditionalFeesToBePaid cfg d1 ms
+  | d, m :: ms =>
+    match calcOne cfg d m with
+    | .error e => .error e
+    | .ok d1 => calculateAdditionalFeesToBePaid cfg d1 ms
 
 /-! ### Floor / base fee -/
 
@@ -198,6 +209,8 @@ def useGrantedFees (a : Allow) (fee : Coins) : Except Err Allow :=
   | .none => .error .grant
   | .unl => .ok .unl
   | .lim l =>
+    -- `SpendLimit.SafeSub(fee...)` builds `sdk.NewCoins(fee...)`, which panics on a negative amount
+    if ¬ fee.nonneg then .error .panic else
     let left := Coins.sub l fee
     if ¬ left.nonneg then .error .grant
     else if left.isZero then .ok .none else .ok (.lim left)
@@ -239,52 +252,63 @@ def gasTxLimit : Nat := 4000000
 def getFeePayerUsingFeeGrant (tx : Tx) (a : Allow) (fee : Coins) : Except Err (Addr × Allow) :=
   match tx.granter with
   | none => .ok (tx.payer, a)
-  | some g => do
-    let a' ← useGrantedFees a fee
-    pure (g, a')
+  | some g =>
+    match useGrantedFees a fee with
+    | .error e => .error e
+    | .ok a' => .ok (g, a')
 
 /-- `checkDeductBaseFee` (provenance_fee.go:78). -/
-def checkDeductBaseFee (cfg : Cfg) (tx : Tx) (s : St) : Except Err (St × Meter) := do
+def checkDeductBaseFee (cfg : Cfg) (tx : Tx) (s : St) : Except Err (St × Meter) :=
   let base := baseFee cfg.floor tx.gas
-  let feeDist ← match calculateAdditionalFeesToBePaid cfg {} tx.top with
-    | .ok d => pure d
-    | .error _ => throw Err.invalid
-  let (src, allow') ← getFeePayerUsingFeeGrant tx s.allow base
-  let required := feeDist.total
-  if ¬ required.isZero ∧ ¬ (Coins.denoms required).all (fun d => decide (Coins.amountOf required d ≤ s.ledger.bal src d)) then
-    throw Err.funds
-  if ¬ base.isZero then
-    match sendCoins s.ledger src cfg.collector base with
-    | none => throw Err.funds
-    | some l => pure ({ s with ledger := l, allow := allow' }, { base := base })
-  else pure ({ s with allow := allow' }, {})
+  match calculateAdditionalFeesToBePaid cfg {} tx.top with
+  | .error _ => .error .invalid
+  | .ok feeDist =>
+    match getFeePayerUsingFeeGrant tx s.allow base with
+    | .error e => .error e
+    | .ok (src, allow') =>
+      let required := feeDist.total
+      if ¬ required.isZero ∧ ¬ (Coins.denoms required).all (fun d => decide (Coins.amountOf required d ≤ s.ledger.bal src d)) then
+        .error .funds
+      else if ¬ base.isZero then
+        match sendCoins s.ledger src cfg.collector base with
+        | none => .error .funds
+        | some l => .ok ({ s with ledger := l, allow := allow' }, { base := base })
+      else .ok ({ s with allow := allow' }, {})
+
+/-- `MsgFeesDecorator.AnteHandle` (CheckTx only): `true` = passes. -/
+def msgFeesDecorator (cfg : Cfg) (tx : Tx) : Bool :=
+  match calculateAdditionalFeesToBePaid cfg {} tx.top with
+  | .error _ => false
+  | .ok d => ensureSufficientFloorAndMsgFees tx.fee cfg.floor tx.gas d.total
 
 /-- The ante chain, `check = true` in CheckTx. -/
-def anteHandle (cfg : Cfg) (tx : Tx) (check : Bool) (s : St) : Except Err (St × Meter) := do
-  if (if check then tx.oogCheck else tx.oogAnte) then throw Err.oog
+def anteHandle (cfg : Cfg) (tx : Tx) (check : Bool) (s : St) : Except Err (St × Meter) :=
+  if (if check then tx.oogCheck else tx.oogAnte) then .error .oog
   -- TxGasLimitDecorator
-  if tx.gas > gasTxLimit then throw Err.gaslimit
+  else if tx.gas > gasTxLimit then .error .gaslimit
   -- MsgFeesDecorator (CheckTx only)
-  if check then
-    match calculateAdditionalFeesToBePaid cfg {} tx.top with
-    | .error _ => throw Err.fee
-    | .ok d => if ¬ ensureSufficientFloorAndMsgFees tx.fee cfg.floor tx.gas d.total then throw Err.fee
-  -- ProvenanceDeductFeeDecorator
-  let (s1, m) ← checkDeductBaseFee cfg tx s
-  -- SigVerificationDecorator, IncrementSequenceDecorator
-  if ¬ tx.sigOk then throw Err.sig
-  pure ({ s1 with seq := s1.seq + 1 }, m)
+  else if check ∧ ¬ msgFeesDecorator cfg tx then .error .fee
+  else
+    -- ProvenanceDeductFeeDecorator
+    match checkDeductBaseFee cfg tx s with
+    | .error e => .error e
+    | .ok (s1, m) =>
+      -- SigVerificationDecorator, IncrementSequenceDecorator
+      if ¬ tx.sigOk then .error .sig
+      else .ok ({ s1 with seq := s1.seq + 1 }, m)
 
 /-! ### Message execution -/
 
 /-- `PioMsgServiceRouter.consumeMsgFees` (msg_service_router.go:239). -/
-def consumeMsgFees (cfg : Cfg) (tx : Tx) (m : Meter) (msg : RMsg) : Except Err Meter := do
-  let d ← calculateAdditionalFeesToBePaid cfg {} [msg]
-  if ¬ d.total.isZero then
-    if ¬ ensureSufficientFloorAndMsgFees tx.fee cfg.floor tx.gas (m.feeConsumed ++ d.total) then throw Err.fee
-    let m1 := if d.moduleFees ≠ [] then m.consumeFee msg.typ "" d.moduleFees else m
-    pure (d.recips.foldl (fun acc rc => acc.consumeFee msg.typ rc.1 rc.2) m1)
-  else pure m
+def consumeMsgFees (cfg : Cfg) (tx : Tx) (m : Meter) (msg : RMsg) : Except Err Meter :=
+  match calculateAdditionalFeesToBePaid cfg {} [msg] with
+  | .error e => .error e
+  | .ok d =>
+    if d.total.isZero then .ok m
+    else if ¬ ensureSufficientFloorAndMsgFees tx.fee cfg.floor tx.gas (m.feeConsumed ++ d.total) then .error .fee
+    else
+      let m1 := if d.moduleFees ≠ [] then m.consumeFee msg.typ "" d.moduleFees else m
+      .ok (d.recips.foldl (fun acc rc => acc.consumeFee msg.typ rc.1 rc.2) m1)
 
 /-- `antewrapper.ConsumeMsgFee` (fee_gas_meter.go:187): zero fees are skipped, nothing is checked. -/
 def consumeMsgFee (m : Meter) (typ : String) (fee : Coins) : Meter :=
@@ -292,12 +316,14 @@ def consumeMsgFee (m : Meter) (typ : String) (fee : Coins) : Meter :=
 
 def runSteps (cfg : Cfg) (tx : Tx) : List Step → Ledger × Meter → Except Err (Ledger × Meter)
   | [], lm => .ok lm
-  | .route msg :: rest, (l, m) => do
-    let m' ← consumeMsgFees cfg tx m msg
-    runSteps cfg tx rest (l, m')
-  | .effect f :: rest, (l, m) => do
-    let l' ← f l
-    runSteps cfg tx rest (l', m)
+  | .route msg :: rest, (l, m) =>
+    match consumeMsgFees cfg tx m msg with
+    | .error e => .error e
+    | .ok m' => runSteps cfg tx rest (l, m')
+  | .effect f :: rest, (l, m) =>
+    match f l with
+    | .error e => .error e
+    | .ok l' => runSteps cfg tx rest (l', m)
   | .consume typ fee :: rest, (l, m) => runSteps cfg tx rest (l, consumeMsgFee m typ fee)
 
 /-! ### End-of-transaction sweep -/
@@ -324,16 +350,17 @@ def deductFeesDistributions (collector : Addr) (l : Ledger) (src : Addr) (remain
       | some l'' => .ok l''
 
 /-- `MsgFeeInvoker.Invoke` (msg_fee_invoker.go:37). -/
-def invoke (cfg : Cfg) (tx : Tx) (m : Meter) (s : St) : Except Err St := do
+def invoke (cfg : Cfg) (tx : Tx) (m : Meter) (s : St) : Except Err St :=
   let consumed := m.feeConsumed
   let uncharged := Coins.sub tx.fee m.base
-  -- `UseGrantedFees` → `SafeSub(fee...)` → `sdk.NewCoins(fee...)` panics on a negative amount
-  if tx.granter.isSome ∧ ¬ uncharged.nonneg then throw Err.panic
-  let (src, allow') ← getFeePayerUsingFeeGrant tx s.allow uncharged
-  if ¬ uncharged.isZero ∨ ¬ consumed.isZero then
-    let l ← deductFeesDistributions cfg.collector s.ledger src uncharged m.distributions
-    pure { s with ledger := l, allow := allow' }
-  else pure { s with allow := allow' }
+  match getFeePayerUsingFeeGrant tx s.allow uncharged with
+  | .error e => .error e
+  | .ok (src, allow') =>
+    if ¬ uncharged.isZero ∨ ¬ consumed.isZero then
+      match deductFeesDistributions cfg.collector s.ledger src uncharged m.distributions with
+      | .error e => .error e
+      | .ok l => .ok { s with ledger := l, allow := allow' }
+    else .ok { s with allow := allow' }
 
 /-! ### runTx (forked baseapp.go:839) -/
 
@@ -341,6 +368,14 @@ inductive Outcome where
   | rejected (e : Err)   -- ante failed: nothing written
   | failed (e : Err)     -- messages or the fee sweep failed: only the ante branch is written
   | ok
+
+def Outcome.isOk : Outcome → Bool
+  | .ok => true
+  | _ => false
+
+def Outcome.isFailed : Outcome → Bool
+  | .failed _ => true
+  | _ => false
 
 /-- The stages of a delivered transaction, kept for the theorems. -/
 structure Run where
